@@ -4,6 +4,7 @@ import (
 	"encoding/json"
 	"errors"
 	"fmt"
+	"io"
 	"net/http"
 	"sort"
 	"strconv"
@@ -30,6 +31,8 @@ type world struct {
 	notes   []string
 	side    []string // non-canonical facts (timestamps, deadlines) written as comment lines
 	extra   []string // derived tokens appended to the op line in the trace (hashes)
+	slow    []func() // pending slow uploads (second halves)
+	nslow   int
 }
 
 func (w *world) settle() bool {
@@ -276,6 +279,25 @@ func (w *world) apply(ws []string) bool {
 			w.extra = []string{"h=" + hashOf(stack.Payload(size, ws[4], 7))}
 			s.Do(stack.CallSpec{Actor: "rt", What: "response", Method: "POST", Path: rtAPI + "/runtime/invocation/" + id + "/response", Headers: hdr,
 				Body: stack.Payload(size, ws[4], 7), Proc: p})
+		case "slowresponse": // slowresponse <idref> <size> <fill>: headers and the first half of the body now, the rest on `rt finish`
+			size, _ := strconv.Atoi(ws[3])
+			id := s.Unalias(ws[2])
+			body := stack.Payload(size, ws[4], 7)
+			s.L.Add("#posted response %s %s", ws[2], hashOf(body))
+			w.extra = []string{"h=" + hashOf(body)}
+			pr, pw := io.Pipe()
+			w.slow = append(w.slow, func() { _, _ = pw.Write(body[len(body)/2:]); pw.Close() })
+			go func() { _, _ = pw.Write(body[:len(body)/2]) }()
+			w.nslow++
+			s.Do(stack.CallSpec{Actor: "rt", What: fmt.Sprintf("slowresponse#%d", w.nslow), Method: "POST", Path: rtAPI + "/runtime/invocation/" + id + "/response",
+				Headers: map[string]string{"Content-Type": "application/octet-stream"}, BodyReader: pr, Proc: p})
+		case "finish": // complete the oldest slow upload
+			if len(w.slow) == 0 {
+				return false
+			}
+			f := w.slow[0]
+			w.slow = w.slow[1:]
+			go f()
 		case "error": // error <idref> <type> <size>
 			size := 20
 			if len(ws) > 4 {
